@@ -21,6 +21,21 @@ CHECKS = {
             "Rocq proof over a Gallina model + extracted-model differential correspondence",
             "sort.SliceStable is assumed to be a stable sort (the uniqueness theorem turns that contract into Order = order); "
             "pointer identity is modelled by uid tags checked on the Go side."),
+    "C09": (True,
+            "Theorems for all cue lists (any order, overlaps, no size bound) and all d: Add removes exactly the cues whose end would be <= 0, "
+            "keeps the others in order with identity and content untouched, end += d, start = max(0, start + d), and d then -d restores every "
+            "cue neither clamped nor removed. The extracted model is run against Subtitles.Add on every list of <=3 cues over a 0..4 grid x "
+            "d in -6..6 and on random ns-granular lists; an independent Go oracle states the property on the implementation's result.",
+            "Rocq proof over a Gallina model + extracted-model differential correspondence",
+            "durations are unbounded Z in the model (no int64 wrap-around: |values| < 2^62 in the property's domain)."),
+    "C14": (True,
+            "Theorems for all well-formed timelines (start-ordered, non-decreasing ends, start<end; no size bound), all d>0 and both filler "
+            "settings: ForceDuration = clipped cues starting before d ++ filler [d-1ms,d) iff requested and the kept part is empty or ends "
+            "before d; duration becomes exactly d with a filler; unchanged when already lasting d. The extracted model is run against "
+            "Subtitles.ForceDuration on all timelines of <=3/<=4 cues over a 0..8 grid x all d on the half-grid x filler, and on random "
+            "timelines; an independent Go oracle states the property.",
+            "Rocq proof over a Gallina model + extracted-model differential correspondence",
+            "the scan-and-truncate loop is modelled as structural recursion (trim); equality with the loop is established by the correspondence only."),
 }
 
 PENDING = "check not built yet in this session (work in progress; see DESIGN.md section 7 for the plan)"
